@@ -559,7 +559,16 @@ fn matches(v: &Val, got: &J) -> bool {
             }
             // every got entry must correspond to some expected entry
             for (i, (gk, gv)) in got.iter().enumerate() {
-                let hit = entries.iter().any(|(k, val)| key_matches(k, gk) && matches(val, gv));
+                // equal keys (0 / false / 0.0) are one entry for the engine; which spelling of
+                // the key and which of their values survives is the map's business
+                let hit = entries.iter().any(|(k, _)| {
+                    key_matches(k, gk) && {
+                        let kv = k.to_value();
+                        entries
+                            .iter()
+                            .any(|(k2, val2)| k2.to_value() == kv && matches(val2, gv))
+                    }
+                });
                 if !hit {
                     return false;
                 }
